@@ -71,12 +71,14 @@ impl<'transient, 'lifespan: 'transient> FormulaParser {
         &mut self,
         string: &str,
         periodic_table: &'lifespan PeriodicTable,
-    ) -> &'lifespan Element {
+    ) -> Result<&'lifespan Element, FormulaParserError> {
         let elt_sym = &string[self.element_start..self.element_end];
-        let elt = &periodic_table[elt_sym];
+        let elt = periodic_table
+            .get(elt_sym)
+            .ok_or(FormulaParserError::InvalidElement)?;
         self.element_start = 0;
         self.element_end = 0;
-        elt
+        Ok(elt)
     }
 
     pub fn parse_element_count(&mut self, string: &str) -> Result<i32, ParseIntError> {
@@ -134,7 +136,7 @@ impl<'transient, 'lifespan: 'transient> FormulaParser {
                     if c.is_ascii_alphabetic() {
                         if c.is_uppercase() {
                             self.element_end = i;
-                            let elt = self.parse_element_from_string(string, periodic_table);
+                            let elt = self.parse_element_from_string(string, periodic_table)?;
                             let elt_spec = ElementSpecification {
                                 element: elt,
                                 isotope: 0,
@@ -153,7 +155,7 @@ impl<'transient, 'lifespan: 'transient> FormulaParser {
                         self.state = FormulaParserState::Isotope;
                     } else if c == '(' {
                         self.element_end = i;
-                        let elt = self.parse_element_from_string(string, periodic_table);
+                        let elt = self.parse_element_from_string(string, periodic_table)?;
                         let elt_spec = ElementSpecification {
                             element: elt,
                             isotope: 0,
@@ -194,7 +196,7 @@ impl<'transient, 'lifespan: 'transient> FormulaParser {
                             0
                         };
 
-                        let elt = self.parse_element_from_string(string, periodic_table);
+                        let elt = self.parse_element_from_string(string, periodic_table)?;
                         let elt_spec = ElementSpecification {
                             element: elt,
                             isotope,
@@ -220,7 +222,7 @@ impl<'transient, 'lifespan: 'transient> FormulaParser {
                         self.count_start = i;
                         self.state = FormulaParserState::Count;
                     } else {
-                        let elt = self.parse_element_from_string(string, periodic_table);
+                        let elt = self.parse_element_from_string(string, periodic_table)?;
                         let isotope: u16 =
                             match string[self.isotope_start..self.isotope_end].parse::<u16>() {
                                 Ok(val) => val,
@@ -309,7 +311,7 @@ impl<'transient, 'lifespan: 'transient> FormulaParser {
         match self.state {
             FormulaParserState::Element => {
                 self.element_end = i;
-                let elt = self.parse_element_from_string(string, periodic_table);
+                let elt = self.parse_element_from_string(string, periodic_table)?;
                 let elt_spec = ElementSpecification {
                     element: elt,
                     isotope: 0,
@@ -334,7 +336,7 @@ impl<'transient, 'lifespan: 'transient> FormulaParser {
                 } else {
                     0
                 };
-                let elt = self.parse_element_from_string(string, periodic_table);
+                let elt = self.parse_element_from_string(string, periodic_table)?;
                 let elt_spec = ElementSpecification {
                     element: elt,
                     isotope,
